@@ -197,6 +197,32 @@ async def play(rec: Recorder, call: dict[str, Any], atom: Any, kw: dict[str, Any
             raise RuntimeError(f"unknown atom {atom!r}")
 
 
+def play_sync(rec: Recorder, call: dict[str, Any], atom: Any, kw: dict[str, Any]) -> Any:
+    """The same interpreter for synchronous handlers (they run in kopf's thread pool): sleeps are virtual-time alarms (kv.vthreads)."""
+    import kopf
+    from kv import vthreads
+    while True:
+        op = atom[0]
+        if op == 'slow':
+            vthreads.vsleep(rec.sim.loop, round(float(atom[1]), 6))
+            atom = atom[2] if len(atom) > 2 else ['ok']
+        elif op == 'patch':
+            patch = kw.get('patch')
+            if patch is not None:
+                _deep_update(patch, copy.deepcopy(atom[1]))
+            atom = atom[2] if len(atom) > 2 else ['ok']
+        elif op == 'ok':
+            return copy.deepcopy(atom[1]) if len(atom) > 1 else None
+        elif op == 'temp':
+            raise kopf.TemporaryError(f"scripted temporary #{call['seq']}", delay=atom[1] if len(atom) > 1 else 60)
+        elif op == 'perm':
+            raise kopf.PermanentError(f"scripted permanent #{call['seq']}")
+        elif op == 'arb':
+            raise ArbitraryError(f"scripted arbitrary #{call['seq']}")
+        else:
+            raise RuntimeError(f"unknown atom {atom!r}")
+
+
 def _deep_update(dst: Any, src: dict[str, Any]) -> None:
     for k, v in src.items():
         if isinstance(v, dict) and v:
@@ -310,9 +336,25 @@ def _register(rec: Recorder, registry: Any, spec: dict[str, Any]) -> None:
                 raise
             rec.ret(call, 'ok', result=jsonable(result))
             return result
-        changing.__name__ = changing.__qualname__ = hid
+        def changing_sync(**kw: Any) -> Any:
+            # a synchronous handler: kopf runs it in its thread pool (kv.vthreads keeps the clock virtual meanwhile)
+            call = rec.call(hid, kind, kw)
+            call['thread'] = True
+            uid = call['uid']
+            try:
+                atom = rec.next_atom(hid, uid)
+                result = play_sync(rec, call, atom, kw)
+                for sub in subs:
+                    _register_sub(rec, hid, sub, uid)
+            except BaseException as e:
+                rec.ret(call, _outcome_name(e), exc=type(e).__name__)
+                raise
+            rec.ret(call, 'ok', result=jsonable(result))
+            return result
+        fn = changing_sync if spec.get('sync') else changing
+        fn.__name__ = fn.__qualname__ = hid
         deco = getattr(kopf.on, kind)
-        deco(resource, id=hid, registry=registry, **opts)(changing)
+        deco(resource, id=hid, registry=registry, **opts)(fn)
 
     elif kind == 'event':
         async def watching(**kw: Any) -> Any:
@@ -357,11 +399,23 @@ def _register(rec: Recorder, registry: Any, spec: dict[str, Any]) -> None:
                 raise
             rec.ret(call, 'ok', result=jsonable(result))
             return result
-        timer.__name__ = timer.__qualname__ = hid
-        kopf.timer(resource, id=hid, registry=registry, **opts)(timer)
+        def timer_sync(**kw: Any) -> Any:
+            call = rec.call(hid, kind, kw)
+            call['thread'] = True
+            try:
+                atom = rec.next_atom(hid, call['uid'])
+                result = play_sync(rec, call, atom, kw)
+            except BaseException as e:
+                rec.ret(call, _outcome_name(e), exc=type(e).__name__)
+                raise
+            rec.ret(call, 'ok', result=jsonable(result))
+            return result
+        tfn = timer_sync if spec.get('sync') else timer
+        tfn.__name__ = tfn.__qualname__ = hid
+        kopf.timer(resource, id=hid, registry=registry, **opts)(tfn)
 
     elif kind == 'daemon':
-        body = _daemon_body(rec, hid, spec.get('persona') or {'type': 'obedient'})
+        body = (_daemon_body_sync if spec.get('sync') else _daemon_body)(rec, hid, spec.get('persona') or {'type': 'obedient'})
         body.__name__ = body.__qualname__ = hid
         kopf.daemon(resource, id=hid, registry=registry, **opts)(body)
 
@@ -456,8 +510,20 @@ def _register_sub(rec: Recorder, parent: str, sub: dict[str, Any], uid: str | No
             raise
         rec.ret(call, 'ok', result=jsonable(result))
         return result
-    subfn.__name__ = subfn.__qualname__ = sid
-    kopf.subhandler(id=sid, **opts)(subfn)
+    def subfn_sync(**kw: Any) -> Any:
+        call = rec.call(full, 'sub', kw)
+        call['thread'] = True
+        try:
+            atom = rec.next_atom(full, call['uid'])
+            result = play_sync(rec, call, atom, kw)
+        except BaseException as e:
+            rec.ret(call, _outcome_name(e), exc=type(e).__name__)
+            raise
+        rec.ret(call, 'ok', result=jsonable(result))
+        return result
+    sfn = subfn_sync if sub.get('sync') else subfn
+    sfn.__name__ = sfn.__qualname__ = sid
+    kopf.subhandler(id=sid, **opts)(sfn)
 
 
 def _daemon_body(rec: Recorder, hid: str, persona: dict[str, Any]) -> Callable[..., Any]:
@@ -530,5 +596,49 @@ def _daemon_body(rec: Recorder, hid: str, persona: dict[str, Any]) -> Callable[.
             raise
         noter.cancel()
         rec.ret(call, outcome, **extra)
+        return None
+    return daemon
+
+
+def _daemon_body_sync(rec: Recorder, hid: str, persona: dict[str, Any]) -> Callable[..., Any]:
+    """
+    Synchronous daemon personas: the function runs in kopf's thread pool and gets the thread-side stop flag
+    (``stopped.wait()`` blocks on a ``threading.Event``). A thread cannot be cancelled, so the personas are:
+      obedient   blocks on ``stopped.wait()`` and returns when the flag is raised
+      linger     the same, then needs ``linger`` more virtual seconds (long lingers are the sync "stubborn": abandoned, never cancelled)
+      selfexit   returns on its own after ``after`` virtual seconds
+      fail       raises per script atoms, otherwise like obedient
+    """
+    from kv import vthreads
+    ptype = persona.get('type', 'obedient')
+
+    def daemon(**kw: Any) -> Any:
+        call = rec.call(hid, 'daemon', kw)
+        call['thread'] = True
+        stopped = kw['stopped']
+        extra: dict[str, Any] = {}
+        try:
+            atom = rec.next_atom(hid, call['uid'])
+            if atom != ['ok']:
+                play_sync(rec, call, atom, kw)
+            if ptype in ('obedient', 'fail', 'linger', 'stubborn', 'swallow'):
+                vthreads.block_until(lambda: bool(stopped), stopped.wait)
+                extra.setdefault('flag_seen_at', rec.now())
+                if ptype in ('linger', 'stubborn', 'swallow'):
+                    vthreads.vsleep(rec.sim.loop, float(persona.get('linger', 1.0)))
+            elif ptype == 'selfexit':
+                if vthreads.vsleep(rec.sim.loop, float(persona.get('after', 1.0)), also=stopped) is False and bool(stopped):
+                    extra.setdefault('flag_seen_at', rec.now())
+            else:
+                raise ValueError(ptype)
+            # The thread wakes while the loop thread is still inside the callback that raised the flag (and may be adding reasons to it):
+            # a zero-length virtual sleep lets that callback finish, so that what is recorded does not depend on the GIL's hand-overs.
+            vthreads.vsleep(rec.sim.loop, 0.0)
+            extra['stopped_flag'] = bool(stopped)
+            extra['reasons'] = str(getattr(stopped, 'reason', None))
+        except BaseException as e:
+            rec.ret(call, _outcome_name(e), exc=type(e).__name__, **extra)
+            raise
+        rec.ret(call, 'ok', **extra)
         return None
     return daemon
